@@ -285,26 +285,32 @@ func resTag(r io.Reader, err error) string {
 	return out + "|" + errTag(err)
 }
 
-// opX3: mode in string | reader | chunked | fail:<n> | nilreader | nilreport
+// opX3: mode in string | reader | chunked | fail:<n> | nilreader | nilreport | nilreport+<one of the others>: a nil report
+// (typed nil pointer of the level's report type) exported through that path
 func opX3(level, tag, vec, mode, tmpl string) string {
 	rep, _ := mkReport(level, tag, vec)
+	nilrep := false
+	if strings.HasPrefix(mode, "nilreport+") {
+		nilrep = true
+		mode = strings.TrimPrefix(mode, "nilreport+")
+	}
 	var ex exporter
 	switch level {
 	case "B":
 		r := rep.(*report.BaseReport)
-		if mode == "nilreport" {
+		if mode == "nilreport" || nilrep {
 			r = nil
 		}
 		ex = r
 	case "T":
 		r := rep.(*report.TemporalReport)
-		if mode == "nilreport" {
+		if mode == "nilreport" || nilrep {
 			r = nil
 		}
 		ex = r
 	default:
 		r := rep.(*report.EnvironmentalReport)
-		if mode == "nilreport" {
+		if mode == "nilreport" || nilrep {
 			r = nil
 		}
 		ex = r
